@@ -99,6 +99,34 @@ func (c18) Gen(r *Rng, tier string, emit func(string, Tok)) {
 			}
 		}
 	}
+	// ---- calls after the failure: explicit NextPacket / NextData sequences that go on after the injected error
+	// (C18_demux_fault_persistent, C18_demux_pointwise); the replacing PacketsParser leaves data in the data buffer ----
+	for k := 0; k < scale(tier, 4, 20); k++ {
+		m := genRefStream(r, streamOpts{PESPIDs: r.Range(1, 2), UnitsPerPID: r.Range(1, 3), MaxPES: 300, Tables: true, SmallChunks: r.Bool()})
+		data := m.bytes()
+		if len(data) > 188*10 && tier != "thorough" {
+			data = data[:188*10]
+		}
+		for j := 0; j < scale(tier, 30, 120); j++ {
+			off := r.Intn(len(data) + 1)
+			if j%5 == 0 {
+				off = r.Intn(200) // inside the detection window
+				if off > len(data) {
+					off = len(data)
+				}
+			}
+			ops := make([]int, len(data)/188+6)
+			for i := range ops {
+				ops[i] = r.Intn(2)
+			}
+			prs := L(I(0))
+			if r.Bool() {
+				prs = L(I(4))
+			}
+			emit("reader-fault-after", L(I(1), scenario{kind: r.Intn(3), optSize: []int{188, 0}[r.Intn(2)], fault: off, chunks: []int{r.Range(1, 250)},
+				prsSpec: prs, data: data, ops: ops}.tok()))
+		}
+	}
 	// ---- writer side: every Write index as failure point, permanent and one-shot ----
 	histories := [][]muxOp{}
 	periods := []int{}
@@ -213,6 +241,41 @@ func (c18) Oracle(c Tok, obs Tok) string {
 		clean := s
 		clean.fault = -1
 		ref := runScenario(clean)
+		single := len(s.ops) > 0
+		for _, op := range s.ops {
+			if op != 0 && op != 1 {
+				single = false
+			}
+		}
+		if single {
+			// one call per op in both runs: compare call by call, beyond the failing call too
+			if len(run.errs) != len(ref.errs) || len(run.errs) != len(s.ops) {
+				return "the failing and the fault-free run made different numbers of calls"
+			}
+			failed, failedInData := false, false
+			for i, e := range run.errs {
+				res := run.results[i].At(0)
+				switch {
+				case res.At(0).Int() == 2:
+					return "the demuxer panicked on a failing reader"
+				case e != nil && errors.Is(e, errInjected):
+					if !failed && s.ops[i] == 1 {
+						failedInData = true
+					}
+					failed = true
+				case e != nil && errors.Is(e, astits.ErrNoMorePackets) && s.fault >= 0 && s.fault <= len(s.data):
+					return fmt.Sprintf("call %d returned ErrNoMorePackets although the reader fails at offset %d <= %d", i, s.fault, len(s.data))
+				default:
+					if ref.results[i].At(0).String() != res.String() {
+						return fmt.Sprintf("call %d of the failing run returned neither the fault-free result nor the injected error", i)
+					}
+					if failed && (s.ops[i] == 0 || failedInData || e != nil) {
+						return fmt.Sprintf("call %d did not return the reader's failure again after an earlier call had reported it", i)
+					}
+				}
+			}
+			return ""
+		}
 		sawFault := false
 		for i, e := range run.errs {
 			res := run.results[i].At(0)
